@@ -207,6 +207,12 @@ func init() {
 	reg.Part("C01/sharedpos", sharedPosPart) // C01's clause: what is written through a File is, at the intended offsets, what the served file then contains
 }
 
+func init() {
+	const r = "; shared position: goroutines sharing one File call Write/Read/Seek at the same time against the permuting peer, all schedules with <= d deviations; oracle: results, final position and final content are those of some interleaving of the calls on a (content, position) model"
+	c12Prop.Rule += r
+	c01Prop.Rule += r
+}
+
 func sharedPosPart(c *reg.Ctx) *reg.Result {
 	{
 		total := reg.NewResult(c.Part)
